@@ -184,7 +184,8 @@ func c13CLI(c *mon.Ctx, args []string, stdin string, files map[string]string, ex
 			extra["file:"+k] = v
 		}
 		if res.Timeout {
-			c.Violation("the CLI did not terminate within the watchdog", extra)
+			// a wall-clock deadline is never a verdict: the run becomes inconclusive and is looked at by hand
+			c.Inconclusive("CLI run hit the 60 s watchdog: " + fmt.Sprint(args))
 			return
 		}
 		if HasCrashMarkers(res.Stderr) {
